@@ -13,8 +13,15 @@
 From Coq Require Import NArith ZArith List.
 Import ListNotations.
 From stdpp Require Import gmap.
-From CV Require Import Chain.Store Chain.StoreProofs Chain.Crash Chain.CrashProofs.
-From CV Require Import Chain.Manager Chain.ManagerProofs Net.MgrLive.
+From CV Require Import Chain.Store.
+From CV Require Import Chain.StoreProofs.
+From CV Require Import Chain.Crash.
+From CV Require Import Chain.CrashProofs.
+From CV Require Import Chain.Manager.
+From CV Require Import Chain.ManagerProofs.
+From CV Require Import Net.MgrLive.
+From CV Require Import Chain.Reopen.
+From CV Require Import Chain.ReopenProofs.
 Open Scope N_scope.
 
 (** Every image the database ever commits is the session view after a whole number of
@@ -69,3 +76,61 @@ Theorem C03_catch_up_same_tip :
     tip (run_adds U m (bs1 ++ l :: bs2)) = tip (run_adds U m' (bs1' ++ l :: bs2')).
 Proof. exact catch_up_same. Qed.
 Print Assumptions C03_catch_up_same_tip.
+
+(** ** What a committed image reopens to (model: Chain/Reopen.v)
+
+    [boundaries U ops]: the manager states after every successful revertTip / applyTip of
+    the run (including those of a reorg that fails half-way and of its rollback) and the
+    state NewDBStore leaves — by [C03_commit_only_at_block_boundary] the only moments at which
+    the database can commit.  [img_of]: the part of the database the manager is rebuilt from
+    (block records, MainChain, Height); [mgr_of]: the manager NewDBStore + NewManager build
+    from it (tip from Height + MainChain).
+
+    Every such image reopens to exactly the manager state the node had at that boundary, and
+    that state satisfies the invariant of C01 and has all its bodies (the node never pruned):
+    the hypotheses of [C03_catch_up] are discharged. *)
+Theorem C03_reopened_state_satisfies_MInv :
+  ∀ U, WF U → ∀ ops b,
+    Forall (op_pre U) ops → no_prune ops → b ∈ boundaries U ops →
+    mgr_of (img_of U b) = b ∧ MInv U (mgr_of (img_of U b)) ∧ all_body (mgr_of (img_of U b)).
+Proof. exact reopened_state_satisfies_MInv. Qed.
+Print Assumptions C03_reopened_state_satisfies_MInv.
+
+(** The crash model's session view and the image of the manager state move together: one
+    revertTip / applyTip of the manager is one block step of Chain/Crash.v on the block with
+    that id and height ([shows s m]: MainChain and Height of [s] are those of [img_of m]) ... *)
+Theorem C03_session_view_tracks_revert :
+  ∀ U, WF U → ∀ R s s' m m' blk,
+    MInv U m → (1 < length (best m))%nat → shows U s m →
+    revert_tip U m = (m', Ok) →
+    Store.b_id blk = tip m → Store.b_h blk = bht U (tip m) →
+    Store.do_step R s (Store.SRevert blk) = Some s' → shows U s' m'.
+Proof. exact view_tracks_revert. Qed.
+Print Assumptions C03_session_view_tracks_revert.
+
+Theorem C03_session_view_tracks_apply :
+  ∀ U R s s' m m' blk,
+    shows U s m → apply_tip U m (Store.b_id blk) = (m', Ok) →
+    Store.b_h blk = bht U (Store.b_id blk) →
+    Store.do_step R s (Store.SApply blk) = Some s' → shows U s' m'.
+Proof. exact view_tracks_apply. Qed.
+Print Assumptions C03_session_view_tracks_apply.
+
+(** ... and the crash model's [reopen] is the tip of the reopened manager. *)
+Theorem C03_reopen_is_the_managers_tip :
+  ∀ U, WF U → ∀ s full m id,
+    MInv U m → shows U s m → reopen (Img s full) = Some id → id = tip m.
+Proof. exact reopen_is_tip. Qed.
+Print Assumptions C03_reopen_is_the_managers_tip.
+
+(** Catch-up without the audited hypothesis: the node reopened from the image of any block
+    boundary of any run, and the uninterrupted node, both end on the separated tip. *)
+Theorem C03_reopened_node_catches_up :
+  ∀ U, WF U → ∀ ops b bs1 l bs2,
+    Forall (op_pre U) ops → no_prune ops → b ∈ boundaries U ops →
+    l ≠ [] → lp U (reverse l) genesis → (∀ x, x ∈ l → okb U x = true) →
+    separated U (List.last l genesis) →
+    tip (run_adds U (mgr_of (img_of U b)) (bs1 ++ l :: bs2)) = List.last l genesis ∧
+    tip (run_adds U (mrun U ops) (bs1 ++ l :: bs2)) = List.last l genesis.
+Proof. exact reopened_node_catches_up. Qed.
+Print Assumptions C03_reopened_node_catches_up.
